@@ -45,13 +45,17 @@ def gen_case(rng):
     G = rng.choice([14, 15, 16, 20, 30, 33, 46, 60, 64, 100,
                     rng.randint(14, 120)])
     dynamic = rng.random() < 0.3
+    # a dynamic guard "longer than G" guarantees the byte at offset G too
+    limit = G + 1 if dynamic and rng.random() < 0.4 else G
     acc = []
     for i in range(rng.randint(1, 4)):
         letter = rng.choice(LETTERS)
         size = struct.calcsize(letter)
         if size > G:
             letter, size = "B", 1
-        p = rng.randint(0, G - size)
+        p = rng.randint(0, limit - size)
+        if rng.random() < 0.25:
+            p = limit - size          # touch the last guaranteed byte
         if rng.random() < 0.25:
             # packet array access (native order, unsigned)
             kind = "arr"
